@@ -170,16 +170,18 @@ keeps it, `icSkip_false_iff`; an all-zero entry has nothing to annotate): its va
 `[d, icLine(orig, dest), both input polarities, outpol]`, provided no later assignment goes to the same line. -/
 theorem interconnect_lands (icLine : IcTable) (df : DelayFile) (pre post : List Entry) (e : Entry)
     (l d : Nat) (ip op : Bool)
-    (hsplit : icEntries df = pre ++ e :: post)
+    (hsplit : icEntries df = some (pre ++ e :: post))
     (hnz : ∃ v ∈ norm e.r ++ norm e.f, v ≠ 0)
     (hline : icLine (stripBackslash (splitSlash e.a).1) (splitSlash e.a).2
                     (stripBackslash (splitSlash e.b).1) (splitSlash e.b).2 = some l)
     (hd : d < 3)
     (hpost : ∀ e' ∈ post, ∀ w, icWrite icLine e' = some w → w.line ≠ l) :
-    interconnects icLine df d l ip op = (norm (if op then e.f else e.r)).getD d 0 := by
-  unfold interconnects icWrites applyAll
-  rw [hsplit, List.filterMap_append, List.filterMap_cons]
+    (interconnects icLine df).map (fun A => A d l ip op) = some ((norm (if op then e.f else e.r)).getD d 0) := by
   have hskip := (icSkip_false_iff _ _).mpr hnz
+  unfold interconnects icWritesOf applyAll
+  rw [hsplit]
+  simp only [Option.map_some, Option.some.injEq]
+  rw [List.filterMap_append, List.filterMap_cons]
   have hw : icWrite icLine e = some ⟨l, [false, true], norm e.r, norm e.f⟩ := by
     simp [icWrite, hskip, hline]
   simp only [hw]
@@ -204,10 +206,13 @@ theorem others_zero_iopaths (pinLine : PinTable) (df : DelayFile) (l d : Nat) (i
   exact h p hp w hpw
 
 /-- coordinates that no entry names stay 0 (INTERCONNECT array) -/
-theorem others_zero_interconnects (icLine : IcTable) (df : DelayFile) (l d : Nat) (ip op : Bool)
-    (h : ∀ e ∈ icEntries df, ∀ w, icWrite icLine e = some w → w.line ≠ l) :
-    interconnects icLine df d l ip op = 0 := by
+theorem others_zero_interconnects (icLine : IcTable) (df : DelayFile) (es : List Entry) (l d : Nat) (ip op : Bool)
+    (hes : icEntries df = some es)
+    (h : ∀ e ∈ es, ∀ w, icWrite icLine e = some w → w.line ≠ l) :
+    (interconnects icLine df).map (fun A => A d l ip op) = some 0 := by
   unfold interconnects
+  rw [hes]
+  simp only [Option.map_some, Option.some.injEq]
   apply applyAll_zero_of_not_covered
   intro w hw
   rcases List.mem_filterMap.mp hw with ⟨p, hp, hpw⟩
@@ -217,8 +222,29 @@ theorem others_zero_interconnects (icLine : IcTable) (df : DelayFile) (l d : Nat
 
 /-- there are only three data sets -/
 theorem others_zero_datasets (pinLine : PinTable) (icLine : IcTable) (df : DelayFile) (l d : Nat) (ip op : Bool)
-    (hd : 3 ≤ d) : iopaths pinLine df d l ip op = 0 ∧ interconnects icLine df d l ip op = 0 :=
-  ⟨applyAll_high _ d l ip op hd, applyAll_high _ d l ip op hd⟩
+    (hd : 3 ≤ d) : iopaths pinLine df d l ip op = 0 ∧ ∀ A, interconnects icLine df = some A → A d l ip op = 0 := by
+  refine ⟨applyAll_high _ d l ip op hd, ?_⟩
+  intro A hA
+  unfold interconnects at hA
+  rcases Option.map_eq_some_iff.mp hA with ⟨es, _, rfl⟩
+  exact applyAll_high _ d l ip op hd
+
+/-- a file without a block that has no INSTANCE name: `interconnects()` raises (`TypeError`: `for .. in None`) — the
+model answers `none`, for both readings of `start`; with such a block it returns an array -/
+theorem interconnects_none_iff (m : Mode) (icLine : IcTable) (B : List RawCell) :
+    interconnects icLine (parse m B) = none ↔ ∀ c ∈ B, c.insts.head? ≠ none := by
+  have key : icEntries (parse m B) = none ↔ ∀ c ∈ B, c.insts.head? ≠ none := by
+    cases m with
+    | merge =>
+      rw [icEntries_merge]
+      simp only [List.map_map, List.mem_map, Function.comp, cell, ite_eq_right_iff, reduceCtorEq, imp_false, not_exists, not_and]
+    | lastWins =>
+      rw [icEntries_lastWins]
+      simp only [Option.map_eq_none_iff, List.find?_eq_none, List.mem_reverse, List.mem_map, beq_iff_eq, forall_exists_index, and_imp,
+        forall_apply_eq_imp_iff₂, cell]
+  unfold interconnects
+  rw [Option.map_eq_none_iff]
+  exact key
 
 /-! ## none is lost: what `start` keeps of the file -/
 /-- `none_lost` for the repaired `start` (`Mode.merge`): under every block name the dictionary holds exactly the
@@ -235,9 +261,11 @@ theorem none_lost_mem (B : List RawCell) (c : RawCell) (n : String) (x : RawEntr
     (n, sanitize x) ∈ namedEntries (parse .merge B) :=
   mem_namedEntries_merge B c n (sanitize x) hc hn hne (List.mem_map.mpr ⟨x, hx, rfl⟩)
 
-/-- … and the INTERCONNECT loop sees all entries of all top-level blocks in file order (`Mode.merge`). -/
+/-- … and the INTERCONNECT loop sees all entries of all top-level blocks in file order (`Mode.merge`); without any
+top-level block there is no list at all (the real code raises). -/
 theorem none_lost_top (B : List RawCell) :
-    icEntries (parse .merge B) = ((flatRaw B).filter (·.1 == none)).map (·.2) := by
+    icEntries (parse .merge B) =
+      if none ∈ (B.map cell).map (·.1) then some (((flatRaw B).filter (·.1 == none)).map (·.2)) else none := by
   rw [icEntries_merge, entriesOfKey_eq_flat]; rfl
 
 /-- nothing is invented (both modes): whatever the IOPATH loop sees stands in a block of that name -/
@@ -314,10 +342,10 @@ def cexIc : IcTable := fun c1 _ c2 p2 =>
   if c1 = "b" ∧ c2 = "u1" ∧ p2 = some "A2" then some 4 else none
 
 theorem none_lost_top_false_lastWins :
-    (icEntries (parse .lastWins cexTop)).length = 1 ∧ (icEntries (parse .merge cexTop)).length = 2
-    ∧ interconnects cexIc (parse .lastWins cexTop) 0 3 false false = 0
-    ∧ interconnects cexIc (parse .merge cexTop) 0 3 false false = 1
-    ∧ interconnects cexIc (parse .lastWins cexTop) 0 4 false false = 2 := by
+    (icEntries (parse .lastWins cexTop)).map List.length = some 1 ∧ (icEntries (parse .merge cexTop)).map List.length = some 2
+    ∧ (interconnects cexIc (parse .lastWins cexTop)).map (fun A => A 0 3 false false) = some 0
+    ∧ (interconnects cexIc (parse .merge cexTop)).map (fun A => A 0 3 false false) = some 1
+    ∧ (interconnects cexIc (parse .lastWins cexTop)).map (fun A => A 0 4 false false) = some 2 := by
   decide +kernel
 
 /-! ## end to end, from the blocks of the file -/
@@ -398,14 +426,20 @@ theorem interconnect_lands_file (icLine : IcTable) (B : List RawCell) (c : RawCe
     (huniq : ∀ c' ∈ B, c'.insts.head? = none → ∀ x' ∈ c'.delays.flatten,
       ∀ w, icWrite icLine (sanitize x') = some w → w.line = l →
       norm (sanitize x').r = norm (sanitize x).r ∧ norm (sanitize x').f = norm (sanitize x).f) :
-    interconnects icLine (parse .merge B) d l ip op
-      = (norm (if op then (sanitize x).f else (sanitize x).r)).getD d 0 := by
+    (interconnects icLine (parse .merge B)).map (fun A => A d l ip op)
+      = some ((norm (if op then (sanitize x).f else (sanitize x).r)).getD d 0) := by
   have hskip := (icSkip_false_iff _ _).mpr hnz
-  unfold interconnects applyAll
-  have hmemAll : ∀ e, e ∈ icEntries (parse .merge B) ↔
+  have htop : none ∈ (B.map cell).map (·.1) := by
+    simp only [List.map_map, List.mem_map, Function.comp, cell]
+    exact ⟨c, hc, hn⟩
+  unfold interconnects
+  rw [icEntries_merge, if_pos htop]
+  simp only [Option.map_some, Option.some.injEq]
+  unfold applyAll
+  have hmemAll : ∀ e, e ∈ entriesOfKey (B.map cell) none ↔
       ∃ c' ∈ B, c'.insts.head? = none ∧ ∃ x' ∈ c'.delays.flatten, e = sanitize x' := by
     intro e
-    rw [icEntries_merge, mem_entriesOfKey]
+    rw [mem_entriesOfKey]
     constructor
     · rintro ⟨p, hp, hk, he⟩
       rcases List.mem_map.mp hp with ⟨c', hc', rfl⟩
@@ -416,12 +450,12 @@ theorem interconnect_lands_file (icLine : IcTable) (B : List RawCell) (c : RawCe
   apply foldl_apply_agree _ _ _ _ _ _ _ hd
   · right
     refine ⟨⟨l, [false, true], norm (sanitize x).r, norm (sanitize x).f⟩, ?_, ?_⟩
-    · unfold icWrites
+    · unfold icWritesOf
       rw [List.mem_filterMap]
       exact ⟨sanitize x, (hmemAll _).mpr ⟨c, hc, hn, x, hx, rfl⟩, by simp [icWrite, hskip, hline]⟩
     · cases ip <;> simp [W.covers]
   · intro w hw hcov
-    unfold icWrites at hw
+    unfold icWritesOf at hw
     rcases List.mem_filterMap.mp hw with ⟨e', hmem, hw'⟩
     rcases (hmemAll e').mp hmem with ⟨c', hc', hk', x', hx', rfl⟩
     simp only [W.covers, Bool.and_eq_true, beq_iff_eq] at hcov
@@ -460,14 +494,14 @@ example :
     ∧ (List.range 3).map (fun d => iopaths exPins (parse .merge exCells) d 6 true true) = [8, 8, 8]
     ∧ (List.range 3).map (fun d => iopaths exPins (parse .merge exCells) d 6 false false) = [0, 0, 0]
     ∧ (List.range 3).map (fun d => iopaths exPins (parse .merge exCells) d 7 true false) = [4, 5, 6]
-    ∧ (List.range 3).map (fun d => interconnects exIc (parse .merge exCells) d 3 true true) = [7, 0, 0]
-    ∧ (List.range 3).map (fun d => interconnects exIc (parse .merge exCells) d 9 false true) = [3, 3, 3] := by
+    ∧ (interconnects exIc (parse .merge exCells)).map (fun A => (List.range 3).map (fun d => A d 3 true true)) = some [7, 0, 0]
+    ∧ (interconnects exIc (parse .merge exCells)).map (fun A => (List.range 3).map (fun d => A d 9 false true)) = some [3, 3, 3] := by
   decide +kernel
 /-- current tree on the same file: the first block of `u3[0]` and the first top-level block are gone -/
 example :
     (List.range 3).map (fun d => iopaths exPins (parse .lastWins exCells) d 5 false false) = [0, 0, 0]
     ∧ (List.range 3).map (fun d => iopaths exPins (parse .lastWins exCells) d 6 true true) = [8, 8, 8]
-    ∧ (List.range 3).map (fun d => interconnects exIc (parse .lastWins exCells) d 3 true true) = [0, 0, 0] := by
+    ∧ (interconnects exIc (parse .lastWins exCells)).map (fun A => (List.range 3).map (fun d => A d 3 true true)) = some [0, 0, 0] := by
   decide +kernel
 /-- the hypotheses of `iopath_lands_file` are satisfiable by a non-trivial object (first block of the repeated
 instance, posedge entry, data set 1) -/
